@@ -670,4 +670,200 @@ theorem decodeGroup_blocks (v4 : Bool) : ∀ (blocks : List (List Entry)) (pre p
     rw [this]
     simp
 
+/-! ### extensions: iteration, offset table, end-of-index entry -/
+
+/-- an extension as it can be stored: 4-byte signature, payload shorter than 4 GiB -/
+def ExtOk (sp : Bytes × Bytes) : Prop := sp.1.length = 4 ∧ sp.2.length < 4294967296
+
+def encodeExts (exts : List (Bytes × Bytes)) : Bytes := exts.flatMap fun (s, p) => encodeExt s p
+
+theorem extIter_encoded : ∀ (exts : List (Bytes × Bytes)) (fuel : Nat), (∀ sp ∈ exts, ExtOk sp) →
+    (encodeExts exts).length ≤ fuel →
+    extIter fuel (encodeExts exts) = (exts, (encodeExts exts).length) := by
+  intro exts
+  induction exts with
+  | nil =>
+    intro fuel _ _
+    cases fuel <;> simp [extIter, encodeExts]
+  | cons sp exts ih =>
+    intro fuel hok hfuel
+    obtain ⟨s, p⟩ := sp
+    have ⟨hs, hp⟩ := hok (s, p) (by simp)
+    have hrest : ∀ x ∈ exts, ExtOk x := fun x hx => hok x (by simp [hx])
+    simp only [ExtOk] at hs hp
+    match s, hs with
+    | [s0, s1, s2, s3], _ =>
+      have henc : encodeExts (([s0, s1, s2, s3], p) :: exts) =
+          s0 :: s1 :: s2 :: s3 :: (be32 p.length ++ (p ++ encodeExts exts)) := by
+        simp [encodeExts, encodeExt, List.flatMap_cons]
+      have hlen : (encodeExts (([s0, s1, s2, s3], p) :: exts)).length = 8 + p.length + (encodeExts exts).length := by
+        rw [henc]
+        simp only [List.length_cons, List.length_append, be32, List.length_nil]; omega
+      rw [hlen] at hfuel ⊢
+      rw [henc]
+      cases fuel with
+      | zero => omega
+      | succ f =>
+        simp only [be32, List.cons_append, List.nil_append, extIter, u8]
+        have hsize : p.length / 16777216 % 256 % 256 * 16777216 + p.length / 65536 % 256 % 256 * 65536 +
+            p.length / 256 % 256 % 256 * 256 + p.length % 256 % 256 = p.length := by omega
+        rw [hsize]
+        have htake : ¬ ((List.take p.length (p ++ encodeExts exts)).length < p.length) := by simp
+        simp only [htake, if_false, List.take_left', List.drop_left']
+        have hf : (encodeExts exts).length ≤ f := by omega
+        rw [ih f hrest hf]
+        simp
+
+def OffsetOk (o : Offset) : Prop := o.fromStart < 4294967296 ∧ o.numEntries < 4294967296
+
+def encodeOffsets (offs : List Offset) : Bytes := offs.flatMap fun o => be32 o.fromStart ++ be32 o.numEntries
+
+theorem encodeOffsets_length (offs : List Offset) : (encodeOffsets offs).length = 8 * offs.length := by
+  induction offs with
+  | nil => rfl
+  | cons o os ih =>
+    simp only [encodeOffsets, List.flatMap_cons, List.length_append, be32, List.length_cons, List.length_nil] at *
+    omega
+
+theorem ieotEntries_encoded : ∀ (offs : List Offset), (∀ o ∈ offs, OffsetOk o) →
+    ieotEntries offs.length (encodeOffsets offs) = some offs := by
+  intro offs
+  induction offs with
+  | nil => intro _; rfl
+  | cons o os ih =>
+    intro hok
+    have ⟨h1, h2⟩ := hok o (by simp)
+    have hos : ∀ x ∈ os, OffsetOk x := fun x hx => hok x (by simp [hx])
+    simp only [encodeOffsets, List.flatMap_cons, List.length_cons, List.append_assoc, ieotEntries]
+    rw [readU32_be32 _ h1]; simp only []
+    rw [readU32_be32 _ h2]; simp only []
+    have := ih hos
+    simp only [encodeOffsets] at this
+    rw [this]
+
+theorem ieotDecode_payload (offs : List Offset) (hne : offs ≠ []) (hok : ∀ o ∈ offs, OffsetOk o) :
+    ieotDecode (ieotPayload offs) = some offs := by
+  unfold ieotDecode ieotPayload
+  rw [readU32_be32 1 (by decide)]
+  simp only []
+  have hl := encodeOffsets_length offs
+  have hpos : 0 < offs.length := List.length_pos_iff.mpr hne
+  have henc : (offs.flatMap fun o => be32 o.fromStart ++ be32 o.numEntries) = encodeOffsets offs := rfl
+  rw [henc]
+  have h1 : ¬ ((1 : Nat) ≠ 1) := by decide
+  have h2 : ¬ ((encodeOffsets offs).length / 8 = 0 ∨ (encodeOffsets offs).length % 8 ≠ 0) := by omega
+  have h3 : (encodeOffsets offs).length / 8 = offs.length := by omega
+  simp only [h1, if_false, h3]
+  have h4 : ¬ (offs.length = 0 ∨ (encodeOffsets offs).length % 8 ≠ 0) := by omega
+  rw [if_neg h4]
+  exact ieotEntries_encoded offs hok
+
+
+/-- the EOIE extension as written -/
+def eoieExt (sha1 : Bytes → Bytes) (offset : Nat) (exts : List (Bytes × Bytes)) : Bytes :=
+  encodeExt sigEOIE (eoiePayload sha1 offset exts)
+
+theorem eoieExt_length (sha1 : Bytes → Bytes) (hsha : ∀ x, (sha1 x).length = 20) (offset : Nat)
+    (exts : List (Bytes × Bytes)) : (eoieExt sha1 offset exts).length = 32 := by
+  simp [eoieExt, encodeExt, eoiePayload, sigEOIE, be32, hsha]
+
+theorem eoieDecode_encoded (sha1 : Bytes → Bytes) (hsha : ∀ x, (sha1 x).length = 20)
+    (Q T : Bytes) (exts : List (Bytes × Bytes)) (hne : exts ≠ []) (hok : ∀ sp ∈ exts, ExtOk sp)
+    (hq : 12 ≤ Q.length) (hq2 : Q.length < 4294967296) (ht : T.length = 20) :
+    eoieDecode sha1 (Q ++ (encodeExts exts ++ (eoieExt sha1 Q.length exts ++ T))) = some Q.length := by
+  have hE := eoieExt_length sha1 hsha Q.length exts
+  unfold eoieDecode
+  have hlen : (Q ++ (encodeExts exts ++ (eoieExt sha1 Q.length exts ++ T))).length
+      = Q.length + (encodeExts exts).length + 52 := by
+    simp only [List.length_append, hE, ht]; omega
+  have h0 : ¬ ((Q ++ (encodeExts exts ++ (eoieExt sha1 Q.length exts ++ T))).length < 32 + hashLen) := by
+    rw [hlen]; simp only [hashLen]; omega
+  rw [if_neg h0]
+  have hstart : (Q ++ (encodeExts exts ++ (eoieExt sha1 Q.length exts ++ T))).length - 32 - hashLen
+      = (Q ++ encodeExts exts).length := by
+    rw [hlen]; simp only [hashLen, List.length_append]; omega
+  simp only [hstart]
+  have hdrop : List.drop (Q ++ encodeExts exts).length (Q ++ (encodeExts exts ++ (eoieExt sha1 Q.length exts ++ T)))
+      = eoieExt sha1 Q.length exts ++ T := by
+    rw [← List.append_assoc, List.drop_left]
+  rw [hdrop]
+  have htake : List.take 32 (eoieExt sha1 Q.length exts ++ T) = eoieExt sha1 Q.length exts := by
+    rw [← hE, List.take_left]
+  rw [htake]
+  have hpl : (eoiePayload sha1 Q.length exts).length = 24 := by
+    simp [eoiePayload, be32, hsha]
+  have hext : eoieExt sha1 Q.length exts = sigEOIE ++ (be32 24 ++ (be32 Q.length ++ sha1 (exts.flatMap fun (s, p) => s ++ be32 p.length))) := by
+    unfold eoieExt encodeExt
+    rw [hpl]
+    simp only [eoiePayload, List.append_assoc]
+  rw [hext]
+  have hsigtake : List.take 4 (sigEOIE ++ (be32 24 ++ (be32 Q.length ++ sha1 (exts.flatMap fun (s, p) => s ++ be32 p.length)))) = sigEOIE := by
+    rw [show (4 : Nat) = sigEOIE.length from rfl, List.take_left]
+  have hsigdrop : List.drop 4 (sigEOIE ++ (be32 24 ++ (be32 Q.length ++ sha1 (exts.flatMap fun (s, p) => s ++ be32 p.length))))
+      = be32 24 ++ (be32 Q.length ++ sha1 (exts.flatMap fun (s, p) => s ++ be32 p.length)) := by
+    rw [show (4 : Nat) = sigEOIE.length from rfl, List.drop_left]
+  rw [hsigtake, hsigdrop, readU32_be32 24 (by decide)]
+  simp only []
+  have h1 : ¬ (sigEOIE ≠ sigEOIE ∨ (24 : Nat) ≠ 24) := by simp
+  rw [if_neg h1, readU32_be32 _ hq2]
+  simp only []
+  have h2 : ¬ (Q.length < 12 ∨ Q.length > (Q ++ encodeExts exts).length) := by
+    simp only [List.length_append]; omega
+  rw [if_neg h2]
+  have hregion : List.take ((Q ++ encodeExts exts).length - Q.length)
+      (List.drop Q.length (Q ++ (encodeExts exts ++ (sigEOIE ++ (be32 24 ++ (be32 Q.length ++ sha1 (exts.flatMap fun (s, p) => s ++ be32 p.length))) ++ T))))
+      = encodeExts exts := by
+    rw [List.drop_left]
+    have : (Q ++ encodeExts exts).length - Q.length = (encodeExts exts).length := by
+      simp only [List.length_append]; omega
+    rw [this, List.take_left]
+  rw [hregion, extIter_encoded exts _ hok (Nat.le_refl _)]
+  simp only []
+  have h3 : ¬ (sha1 (exts.flatMap fun (x : Bytes × Bytes) => x.1 ++ be32 x.2.length) ≠
+      sha1 (exts.flatMap fun (s, p) => s ++ be32 p.length)) := by simp
+  have h4 : ¬ (exts.isEmpty = true ∨ (encodeExts exts).length ≠ (encodeExts exts).length) := by
+    cases exts with
+    | nil => exact absurd rfl hne
+    | cons a b => simp
+  simp only [h3, h4, if_false]
+
+
+theorem eoieDecode_no_exts (sha1 : Bytes → Bytes) (hsha : ∀ x, (sha1 x).length = 20)
+    (Q T : Bytes) (hq2 : Q.length < 4294967296) (ht : T.length = 20) :
+    eoieDecode sha1 (Q ++ (eoieExt sha1 Q.length [] ++ T)) = none := by
+  have hE := eoieExt_length sha1 hsha Q.length []
+  unfold eoieDecode
+  have hlen : (Q ++ (eoieExt sha1 Q.length [] ++ T)).length = Q.length + 52 := by
+    simp only [List.length_append, hE, ht]
+  by_cases h0 : (Q ++ (eoieExt sha1 Q.length [] ++ T)).length < 32 + hashLen
+  · rw [if_pos h0]
+  rw [if_neg h0]
+  have hstart : (Q ++ (eoieExt sha1 Q.length [] ++ T)).length - 32 - hashLen = Q.length := by
+    rw [hlen]; simp only [hashLen]; omega
+  simp only [hstart, List.drop_left]
+  have htake : List.take 32 (eoieExt sha1 Q.length [] ++ T) = eoieExt sha1 Q.length [] := by
+    rw [← hE, List.take_left]
+  rw [htake]
+  have hpl : (eoiePayload sha1 Q.length []).length = 24 := by
+    simp [eoiePayload, be32, hsha]
+  have hext : eoieExt sha1 Q.length [] = sigEOIE ++ (be32 24 ++ (be32 Q.length ++ sha1 [])) := by
+    unfold eoieExt encodeExt
+    rw [hpl]
+    simp only [eoiePayload, List.append_assoc, List.flatMap_nil]
+  rw [hext]
+  have hsigdrop : List.drop 4 (sigEOIE ++ (be32 24 ++ (be32 Q.length ++ sha1 []))) = be32 24 ++ (be32 Q.length ++ sha1 []) := by
+    rw [show (4 : Nat) = sigEOIE.length from rfl, List.drop_left]
+  rw [hsigdrop, readU32_be32 24 (by decide)]
+  simp only []
+  split
+  · rfl
+  · rw [readU32_be32 _ hq2]
+    simp only []
+    split
+    · rfl
+    · simp only [Nat.sub_self, List.take_zero, List.length_nil, extIter]
+      split
+      · rfl
+      · simp
+
 end GixModel.C24
